@@ -150,7 +150,7 @@ def simulate(case, tier='quick', H=None):
     q_true = oracle.qnormalize(np.array(case['q'], dtype=float))
     theta0 = math.radians(float(case['theta0']))
     q_init = oracle.qmul(q_true, oracle.axang2q(case['axis'], theta0))        # sensor->earth attitudes
-    P = {k: (np.array(v) if k == 'weights' else v) for k, v in case['P'].items()}
+    P = F.revive_params(case['P'])
     dt = float(case['dt'])
     n = H if H is not None else horizon(key, case['P'], dt, theta0, tier)
     n = int(min(n, 30000))
